@@ -32,7 +32,7 @@ ASSUMPTIONS = [
     "default options op.reindex=True, op.broadcast=True",
 ]
 MANDATORY = ["rel:permuted", "rel:overlapping", "rel:disjoint", "rel:subset", "rel:superset", "rel:equal", "dims:reordered", "dims:b-has-new",
-             "dims:a-has-extra", "labels:s", "labels:int-vs-float", "operand:scalar", "operand:ndarray", "storage:shuf", "dtype-checked:ii->i", "dtype-checked:ii->f", "dtype-checked:if->f"]
+             "dims:a-has-extra", "labels:s", "labels:int-vs-float", "operand:scalar", "operand:ndarray", "storage:shuf", "operands:combined-before-under-other-labels", "dtype-checked:ii->i", "dtype-checked:ii->f", "dtype-checked:if->f"]
 
 OPS = {"+": np.add, "-": np.subtract, "*": np.multiply, "/": np.true_divide, "//": np.floor_divide, "**": np.power}
 PYOPS = {"+": operator.add, "-": operator.sub, "*": operator.mul, "/": operator.truediv, "//": operator.floordiv, "**": operator.pow}
@@ -84,7 +84,7 @@ def pair_case(draw, max_dims=3):
             s["vk"] = "i" if ints else "f"
             s["vals"] = [2 + k % (7 if j == 0 else 3) for k in range(n)] if ints else [2.0 + 0.25 * k for k in range(n)]
             s.pop("nan", None)
-    return {"mode": "pair", "a": a, "b": b, "op": op}
+    return {"mode": "pair", "a": a, "b": b, "op": op, "rehearse": draw(st.integers(0, 3)) == 0}
 
 
 @st.composite
@@ -116,6 +116,16 @@ def enumerate_cases(tier):
         a = {"dims": ["x"], "labels": [[10, 20, 30, 40]], "vk": "i", "base": 2}
         b = {"dims": ["x"], "labels": [[5] + list(perm) + [45]], "vk": "i", "base": 3}
         yield "same-label-set-every-order", {"mode": "pair", "a": a, "b": b, "op": "+"}
+
+    # closely spaced float labels of large magnitude (decimal years, metre coordinates; relative spacing 5e-6): one operand lacks some of them -
+    # every non-empty proper subset, both operand orders; a label is missing or it is there, however close its neighbours are
+    for base in ([2000.01, 2000.02, 2000.03, 2000.04], [500003.0, 500002.0, 500001.0, 500000.0]):
+        for mask in range(1, 15):
+            sub = [x for i, x in enumerate(base) if mask & (1 << i)]
+            a = {"dims": ["x"], "labels": [list(base)], "vk": "f", "base": 2}
+            b = {"dims": ["x"], "labels": [sub], "vk": "f", "base": 3}
+            yield "closely-spaced-float-labels", {"mode": "pair", "a": a, "b": b, "op": "+"}
+            yield "closely-spaced-float-labels", {"mode": "pair", "a": b, "b": a, "op": "-"}
 
 
 def strategy(tier):
@@ -177,9 +187,22 @@ def check_binary(res, ma, mb, op, what, sig, dtypes=None, cl=None):
 
 
 def run_pair(case):
-    a = core.build(case["a"])
-    b = core.build(case["b"])
     op = case["op"]
+    if case.get("rehearse"):
+        # the SAME two objects were combined before, under other labels (same kinds) and other values; then both were relabelled and
+        # overwritten in place: whatever the first operation left behind on them (cast / joined / sorted axes) must not matter now
+        a, b = core.build_initial(case["a"]), core.build_initial(case["b"])
+        for f in (lambda: PYOPS[op](a, b), lambda: PYOPS[op](b, a), lambda: a + b):
+            try:
+                with np.errstate(all="ignore"):
+                    f()
+            except Exception:
+                pass
+        core.finalise(a, case["a"])
+        core.finalise(b, case["b"])
+    else:
+        a = core.build(case["a"])
+        b = core.build(case["b"])
     sa, sb = core.snapshot(a), core.snapshot(b)
     ma, mb = core.model_of_spec(case["a"]), core.model_of_spec(case["b"])
     sig = {"mode": "pair", "op": op}
@@ -212,6 +235,8 @@ def run_pair(case):
     if any(d not in case["b"]["dims"] for d in case["a"]["dims"]):
         cl.add("dims:a-has-extra")
     cl.add("op:" + op)
+    if case.get("rehearse"):
+        cl.add("operands:combined-before-under-other-labels")
     return {"classes": sorted(cl), "nontrivial": bool(shared) and differs}
 
 
